@@ -11,7 +11,7 @@ structure State where
   /-- printed with metadata and the user balances only (ugrain: its supply inflates every block) -/
   light : List Denom
 
-def init : State := ⟨St.genesis (fun _ _ => 0) (fun _ => 0) (fun _ => none) 0, [], []⟩
+def init : State := ⟨St.genesis (fun _ _ => 0) (fun _ => 0) (fun _ => none) 0 noGrants, [], []⟩
 
 /-- addresses whose balances are printed: four users, two key-less addresses, the tokenfactory
 module account and the distribution module account -/
@@ -140,7 +140,7 @@ def mkGenesis (fee : Nat) (bals : List (Addr × Denom × Nat)) (grants : List (A
   let md := nat.foldl (fun f x => updD f x.1 x.2.2.1) (fun _ => (none : Option Nat))
   let ad := nat.foldl (fun f x => updD f x.1 x.2.2.2) (fun _ => (none : Option Nat))
   let g := grants.foldl (fun f x => updG f x.1 x.2 true) (fun _ _ => false)
-  { St.genesis bal sup md fee with grant := g, admin := ad }
+  { St.genesis bal sup md fee g with admin := ad }
 
 /-- ops (every answer is `<result> <ledger rows>`; denominations/addresses in the encoding above):
   `reset <fee> <addr=denom=amount;…|-> <granter:grantee,…|-> <denom=supply=meta=admin;…|-> <watch;…|-> <light;…|->`
